@@ -169,7 +169,7 @@ def check_index(V, run, gname, fn):
 
 def run(tier, seed):
     V = common.Verdict("C19", tier, seed)
-    configs = ["K17"] if tier == "quick" else ["K17", "K20"]
+    configs = ["K17", "K20"] if tier == "quick" else ["K17", "K20"]
     nlit = 0
     for cfg in configs:
         try:
